@@ -106,13 +106,33 @@ class Engine:
             # BV->Int translation (our terms never wrap, so linear arithmetic is decided as LIA),
             # stage 4: fresh z3 with the full timeout
             asserts = list(self.solver.assertions()) + list(extra)
-            r = self._fresh_z3(asserts, min(self.timeout_ms, 6000))
+            r = self._fresh_z3(asserts, 1000)
             if r == z3.unknown:
-                r = self._cvc5(asserts)
-            if r == z3.unknown and self.timeout_ms > 6000:
+                job = self._cvc5_start(asserts)              # runs in parallel with the z3 attempt below
+                quick = False
+                if job is not None:
+                    try:
+                        job[0].wait(timeout=1.5)             # linear queries come back at once
+                        quick = True
+                    except Exception:                        # noqa  (still running)
+                        quick = False
+                if quick:
+                    r = self._cvc5_finish(job, asserts)
+                    job = None
+                if r == z3.unknown:
+                    r = self._fresh_z3(asserts, min(self.timeout_ms, 8000))
+                    if r != z3.unknown:
+                        self._cvc5_kill(job)
+                    else:
+                        r = self._cvc5_finish(job, asserts)
+            if r == z3.unknown and self.timeout_ms > 8000:
                 r = self._fresh_z3(asserts, self.timeout_ms)
         self.tq += time.time() - t
         self.nq += 1
+        if os.environ.get("SX_SLOW") and time.time() - t > float(os.environ["SX_SLOW"]):
+            import sys
+            print("  slow query %.2fs -> %s (fresh=%d cvc5=%d)" % (time.time() - t, r, self.n_fresh, getattr(self, "n_cvc5", 0)),
+                  file=sys.stderr)
         if r == z3.unknown:
             self.n_unknown += 1
             d = os.environ.get("SX_DUMP_UNKNOWN")
@@ -134,46 +154,69 @@ class Engine:
             self._model = s2.model()
         return r
 
-    def _cvc5(self, asserts):
-        """third opinion: the cvc5 binary on the same assertions (--solve-bv-as-int=sum)"""
+    def _cvc5_start(self, asserts):
+        """third opinion: the cvc5 binary on the same assertions (--solve-bv-as-int=sum: our terms
+        never wrap, so linear arithmetic over them is decided as integer arithmetic)"""
         import shutil
         import subprocess
         import tempfile
         exe = shutil.which("cvc5")
         if exe is None:
-            return z3.unknown
+            return None
         s3 = z3.Solver()
         s3.add(asserts)
         consts = {}
-
-        def walk(t, seen=set()):
-            stack = [t]
-            while stack:
-                x = stack.pop()
-                if x.get_id() in seen:
-                    continue
-                seen.add(x.get_id())
-                if z3.is_const(x) and x.decl().kind() == z3.Z3_OP_UNINTERPRETED:
-                    consts[x.decl().name()] = x
-                stack.extend(x.children())
         seen = set()
-        for a in asserts:
-            walk(a, seen)
+        stack = list(asserts)
+        while stack:
+            x = stack.pop()
+            if x.get_id() in seen:
+                continue
+            seen.add(x.get_id())
+            if z3.is_const(x) and x.decl().kind() == z3.Z3_OP_UNINTERPRETED:
+                consts[x.decl().name()] = x
+            stack.extend(x.children())
         names = sorted(consts)
         text = "(set-logic QF_BV)\n(set-option :produce-models true)\n" + s3.to_smt2()
         if names:
             text += "\n(get-value (%s))\n" % " ".join("|%s|" % n for n in names)
         fd, path = tempfile.mkstemp(suffix=".smt2", prefix="sx_")
+        with os.fdopen(fd, "w") as f:
+            f.write(text)
+        proc = subprocess.Popen([exe, "--solve-bv-as-int=sum", "--tlimit=%d" % self.timeout_ms, path],
+                                stdout=subprocess.PIPE, stderr=subprocess.DEVNULL, text=True)
+        return (proc, path, consts)
+
+    def _cvc5_kill(self, job):
+        if job is None:
+            return
+        proc, path, _ = job
         try:
-            with os.fdopen(fd, "w") as f:
-                f.write(text)
+            proc.kill()
+            proc.communicate()
+        finally:
             try:
-                out = subprocess.run([exe, "--solve-bv-as-int=sum", "--tlimit=%d" % self.timeout_ms, path],
-                                     capture_output=True, text=True, timeout=self.timeout_ms / 1000.0 + 5).stdout
+                os.unlink(path)
+            except OSError:
+                pass
+
+    def _cvc5_finish(self, job, asserts):
+        import subprocess
+        if job is None:
+            return z3.unknown
+        proc, path, consts = job
+        try:
+            try:
+                out = proc.communicate(timeout=self.timeout_ms / 1000.0 + 5)[0]
             except subprocess.TimeoutExpired:
+                proc.kill()
+                proc.communicate()
                 return z3.unknown
         finally:
-            os.unlink(path)
+            try:
+                os.unlink(path)
+            except OSError:
+                pass
         self.n_cvc5 = getattr(self, "n_cvc5", 0) + 1
         lines = out.strip().splitlines()
         if not lines:
@@ -313,7 +356,14 @@ class Engine:
             if self.pos < len(self.plan) and self.plan[self.pos][2] is not None:
                 val = self.plan[self.pos][2]          # replaying: same candidate as recorded
             else:
-                m = self.model_of()
+                m = None
+                if sint.hi - sint.lo > 64:          # prefer small witnesses (loop counts, lengths)
+                    for bound in (8, 64, 4096):
+                        m = self.model_of(z3.And(sint.t >= -bound, sint.t <= bound))
+                        if m is not None:
+                            break
+                if m is None:
+                    m = self.model_of()
                 if m is None:
                     raise Abort()
                 val = m.eval(sint.t, model_completion=True).as_signed_long()
@@ -931,7 +981,10 @@ class _SSeq:
 
     def __mul__(self, n):
         if type(n) is SInt:
-            n = cur().enumerate(n, 64, cut_label="repeat count of a byte string beyond 64 distinct values")
+            e = cur()
+            if not z3.is_bv_value(z3.simplify(n.t)) and not e.decide(term_of(n <= 32)):
+                e.cut("byte string repeated more than 32 times by a symbolic count (e.g. zero padding of an over-long length field)")
+            n = e.enumerate(n, 40, cut_label="repeat count of a byte string beyond 40 distinct values")
         return self._new(self.items * int(n))
     __rmul__ = __mul__
 
